@@ -155,3 +155,43 @@ mod vx_kani_time {
         }
     }
 }
+
+// ---- K10 (BOUNDED: the listed paths): path normalisation (C09) on the real name_chain_from_path / path_from_name_chain, which the
+// Verus side only knows as the uninterpreted path_chain: "." is dropped, ".." removes the component before it and may not climb
+// above the root, a leading "/" restarts at the root, relative and absolute spellings of a path give the same chain, and the
+// canonical path of a chain is "/" followed by its names.
+#[cfg(kani)]
+mod vx_kani_paths {
+    use crate::internal::path::{name_chain_from_path, path_from_name_chain};
+    use std::path::Path;
+
+    fn chain_is(p: &str, want: &[&str]) -> bool {
+        match name_chain_from_path(Path::new(p)) {
+            Ok(v) => v.len() == want.len() && v.iter().zip(want.iter()).all(|(a, b)| a == b),
+            Err(_) => false,
+        }
+    }
+    fn refused(p: &str) -> bool {
+        match name_chain_from_path(Path::new(p)) {
+            Ok(_) => false,
+            Err(e) => { let k = e.kind() == std::io::ErrorKind::InvalidInput; std::mem::forget(e); k }
+        }
+    }
+
+    #[kani::proof]
+    #[kani::unwind(12)]
+    fn k_path_normalisation() {
+        assert!(chain_is("/", &[]));
+        assert!(chain_is("", &[]));
+        assert!(chain_is("/a/b", &["a", "b"]));
+        assert!(chain_is("a/b", &["a", "b"]));
+        assert!(chain_is("/a/./b", &["a", "b"]));
+        assert!(chain_is("/a/../b", &["b"]));
+        assert!(chain_is("a/b/..", &["a"]));
+        assert!(chain_is("a//b/", &["a", "b"]));
+        assert!(refused(".."));
+        assert!(refused("/a/../.."));
+        assert!(path_from_name_chain(&["a", "b"]) == Path::new("/a/b"));
+        assert!(path_from_name_chain(&[]) == Path::new("/"));
+    }
+}
